@@ -977,6 +977,15 @@ func (fr *frame) eval(e Expr, env *Env) (Value, *Abrupt) {
 		return fr.eval(x.B, env)
 	case *Assign:
 		return fr.evalAssign(x, env)
+	case *AssignPat:
+		v, ab := fr.eval(x.V, env)
+		if ab != nil {
+			return nil, ab
+		}
+		if ab := fr.destructAssign(x.Target, v, env); ab != nil {
+			return nil, ab
+		}
+		return v, nil
 	case *Update:
 		old, ab := fr.readIdent(x.Name, env)
 		if ab != nil {
@@ -1128,6 +1137,20 @@ func copyDataProperties(dst *Obj, src Value) {
 
 func (fr *frame) evalAssign(x *Assign, env *Env) (Value, *Abrupt) {
 	in := fr.in
+	logical := x.Op == "||=" || x.Op == "&&=" || x.Op == "??="
+	skip := func(old Value) bool { // short circuit of a logical assignment
+		switch x.Op {
+		case "||=":
+			return truthy(old)
+		case "&&=":
+			return !truthy(old)
+		}
+		switch old.(type) {
+		case Undef, Null:
+			return false
+		}
+		return true
+	}
 	switch t := x.Target.(type) {
 	case *Ident:
 		var old Value
@@ -1139,6 +1162,9 @@ func (fr *frame) evalAssign(x *Assign, env *Env) (Value, *Abrupt) {
 			}
 		} else if env.lookup(t.Name) == nil {
 			domain("assignment to undeclared variable " + t.Name)
+		}
+		if logical && skip(old) {
+			return old, nil
 		}
 		v, ab := fr.eval(x.V, env)
 		if ab != nil {
@@ -1171,6 +1197,9 @@ func (fr *frame) evalAssign(x *Assign, env *Env) (Value, *Abrupt) {
 		var old Value
 		if x.Op != "=" {
 			old, _ = in.getProp(bo, key)
+		}
+		if logical && skip(old) {
+			return old, nil
 		}
 		v, ab := fr.eval(x.V, env)
 		if ab != nil {
@@ -1310,6 +1339,181 @@ func (fr *frame) bindArrayElems(x *PArr, rec *iterRec, env *Env, initialize bool
 			fr.in.tick()
 		}
 		return fr.bind(x.Rest, newArray(rest), env, initialize)
+	}
+	return nil
+}
+
+// ---------------------------------------------------------------- destructuring assignment (13.15.5)
+
+type lref struct {
+	name string // identifier reference
+	obj  *Obj   // property reference
+	key  string
+}
+
+func isLeafTarget(p Pattern) bool {
+	switch p.(type) {
+	case *PIdent, *PMember:
+		return true
+	}
+	return false
+}
+
+// evalRef: evaluation of a DestructuringAssignmentTarget that is not a pattern (happens BEFORE the value is fetched).
+func (fr *frame) evalRef(p Pattern, env *Env) (lref, *Abrupt) {
+	switch x := p.(type) {
+	case *PIdent:
+		if env.lookup(x.Name) == nil {
+			domain("assignment to undeclared variable " + x.Name)
+		}
+		return lref{name: x.Name}, nil
+	case *PMember:
+		base, ab := fr.readIdent(x.O, env)
+		if ab != nil {
+			return lref{}, ab
+		}
+		bo, ok := base.(*Obj)
+		if !ok || bo.Kind != KPlain {
+			domain("member assignment to a non-plain object")
+		}
+		key := x.Name
+		if x.Computed != nil {
+			kv, ab := fr.eval(x.Computed, env)
+			if ab != nil {
+				return lref{}, ab
+			}
+			key = toPropertyKey(kv)
+		}
+		return lref{obj: bo, key: key}, nil
+	}
+	panic("evalRef")
+}
+
+func (fr *frame) putRef(r lref, v Value, env *Env) *Abrupt {
+	if r.obj != nil {
+		r.obj.set(r.key, v)
+		return nil
+	}
+	return fr.writeIdent(r.name, env, v)
+}
+
+func (fr *frame) destructAssign(p Pattern, value Value, env *Env) *Abrupt {
+	in := fr.in
+	in.tick()
+	switch x := p.(type) {
+	case *PObj:
+		switch value.(type) {
+		case Undef, Null:
+			return in.throwErr("TypeError")
+		}
+		for _, pr := range x.Props {
+			key := pr.Key
+			if pr.Computed != nil {
+				kv, ab := fr.eval(pr.Computed, env)
+				if ab != nil {
+					return ab
+				}
+				key = toPropertyKey(kv)
+			}
+			var ref lref
+			leaf := isLeafTarget(pr.Target)
+			if leaf {
+				var ab *Abrupt
+				ref, ab = fr.evalRef(pr.Target, env)
+				if ab != nil {
+					return ab
+				}
+			}
+			v, ab := in.getProp(value, key)
+			if ab != nil {
+				return ab
+			}
+			if _, u := v.(Undef); u && pr.Default != nil {
+				v, ab = fr.eval(pr.Default, env)
+				if ab != nil {
+					return ab
+				}
+			}
+			if leaf {
+				ab = fr.putRef(ref, v, env)
+			} else {
+				ab = fr.destructAssign(pr.Target, v, env)
+			}
+			if ab != nil {
+				return ab
+			}
+		}
+		return nil
+	case *PArr:
+		rec, ab := fr.getIterator(value)
+		if ab != nil {
+			return ab
+		}
+		res := fr.destructAssignElems(x, rec, env)
+		if !rec.done {
+			return fr.iterClose(rec, res)
+		}
+		return res
+	}
+	panic("destructAssign")
+}
+
+func (fr *frame) destructAssignElems(x *PArr, rec *iterRec, env *Env) *Abrupt {
+	for _, el := range x.Elems {
+		var ref lref
+		leaf := isLeafTarget(el.Target)
+		if leaf {
+			var ab *Abrupt
+			ref, ab = fr.evalRef(el.Target, env)
+			if ab != nil {
+				return ab
+			}
+		}
+		var v Value = undef
+		if !rec.done {
+			ev, done, ab := fr.iterStepValue(rec)
+			if ab != nil {
+				return ab
+			}
+			if !done {
+				v = ev
+			}
+		}
+		if _, u := v.(Undef); u && el.Default != nil {
+			dv, ab := fr.eval(el.Default, env)
+			if ab != nil {
+				return ab
+			}
+			v = dv
+		}
+		var ab *Abrupt
+		if leaf {
+			ab = fr.putRef(ref, v, env)
+		} else {
+			ab = fr.destructAssign(el.Target, v, env)
+		}
+		if ab != nil {
+			return ab
+		}
+	}
+	if x.Rest != nil {
+		ref, ab := fr.evalRef(x.Rest, env)
+		if ab != nil {
+			return ab
+		}
+		var rest []Value
+		for !rec.done {
+			ev, done, ab := fr.iterStepValue(rec)
+			if ab != nil {
+				return ab
+			}
+			if done {
+				break
+			}
+			rest = append(rest, ev)
+			fr.in.tick()
+		}
+		return fr.putRef(ref, newArray(rest), env)
 	}
 	return nil
 }
